@@ -206,7 +206,23 @@ func runC01(c *Ctx) {
 					r.Violation(sig("C01", backendClass(j.kind), "upload-refused", "put,"+sizeClassOf(size)), fmt.Sprintf("%s PUT of copy source (%d bytes): %s", j.kind, size, pr), respDesc(pr))
 					return
 				}
-				up = s.Copy(bucket, srcKey, bucket, key)
+				if caseNo%2 == 0 {
+					// a copy that overrides metadata
+					up = s.Do(&drv.Req{Method: "PUT", Path: drv.ObjPath(bucket, key), Header: drv.H("x-amz-copy-source", drv.CopySourceEscape(bucket, srcKey),
+						"Content-Type", "application/x-copy-override", "x-amz-meta-alpha", "overridden by the copy", "x-amz-meta-copy-only", "1")})
+				} else {
+					up = s.Copy(bucket, srcKey, bucket, key)
+				}
+				// the source was uploaded by PUT with these headers: it must still return them, and its bytes, after being copied
+				for _, how := range []string{"get", "head"} {
+					var sr *drv.Resp
+					if how == "get" {
+						sr = s.Get(bucket, srcKey)
+					} else {
+						sr = s.Head(bucket, srcKey)
+					}
+					c01CheckRead(r, j.kind, how+"-copy-source", "put", srcKey, c01Expect{body: body, meta: meta}, sr.Status, sr.Body, how == "get", sr.ETag(), sr.Header.Get("Content-Length"), sr.Header, sizeClassOf(size))
+				}
 				if up.Status == 200 {
 					var cr drv.CopyResult
 					if drv.ParseXML(up.Body, &cr) != nil || cr.ETag != drv.QuotedMD5(body) {
